@@ -113,9 +113,39 @@ func collectorRules(c *core.Ctx, s *Stage, col, w *Goroutine, vals, result *ir.T
 		m, _, args, isC := callParts(t)
 		return isC && m == "Empty" && len(args) == 1 && args[0].Op == "param"
 	}
+	rotated := loop != nil && loop.Rotated()
+	// exitRule: exactly one send of accVal on the result channel, then its close; capacity >= 1
+	exitRule := func(p *ir.Path, accVal *ir.Term, isAcc func(*ir.Term) bool) {
+		sends := allSends(p)
+		n := 0
+		sendIdx, closeIdx := -1, -1
+		for i := range p.Steps {
+			st := &p.Steps[i]
+			if st.Kind == ir.KSend && ir.Same(st.A[0], result) {
+				n++
+				sendIdx = i
+				if !(accVal != nil && ir.Same(st.A[1], accVal)) && !(isAcc != nil && isAcc(st.A[1])) {
+					okProv = false
+					c.Fail("single-result", "fork.Fold", st.Pos(), "the value sent on the result channel is %s, expected the collector's accumulator", short(st.A[1]))
+				}
+			}
+			if st.Kind == ir.KClose && ir.Same(st.A[0], result) {
+				closeIdx = i
+			}
+		}
+		capOK := false
+		if k, isK := chanCap(result).IntConst(); isK && k >= 1 {
+			capOK = true
+		}
+		c.Check(n == 1 && len(sends) == 1 && closeIdx > sendIdx && capOK, "single-result", "fork.Fold", lastPos(p), "one send(result, acc), then close; cap >= 1",
+			"the collector sends %d values on the result channel (want exactly 1, before its close, capacity >= 1; found capacity %s)", n, short(chanCap(result)))
+	}
 	for _, p := range an.Segs[nil] {
 		v := p.PhiOut[accPhi]
-		if p.To != h || !isEmpty(v) {
+		if p.To == nil && rotated && p.Exit == ir.ExitReturn {
+			// bottom-tested loop skipped (no partial expected): the result is the monoid's Empty() itself
+			exitRule(p, nil, isEmpty)
+		} else if p.To != h || !isEmpty(v) {
 			okProv = false
 			c.Fail("acc-provenance", "fork.Fold#collector", col.Fn.Pos(), "the collector's accumulator starts from %s, expected the monoid's Empty(): a monoid whose identity is not the zero value (product, min, and) yields a wrong result", short(v))
 		}
@@ -136,8 +166,16 @@ func collectorRules(c *core.Ctx, s *Stage, col, w *Goroutine, vals, result *ir.T
 		}
 	}
 	for _, p := range an.Segs[h] {
-		if p.To == h {
+		if p.To == h || rotated && p.Exit == ir.ExitReturn {
 			v := p.PhiOut[accPhi]
+			if p.To != h {
+				// bottom-tested loop: the exit path carries the last iteration; its accumulator is what is sent
+				for _, st := range p.Events(ir.KSend) {
+					if ir.Same(st.A[0], result) {
+						v = st.A[1]
+					}
+				}
+			}
 			recvs := p.Events(ir.KRecv)
 			m, _, args, isC := callParts(v)
 			good := isC && m == "Combine" && len(args) == 3 && ir.Same(args[1], sym) && len(recvs) == 1 && ir.Same(recvs[0].A[0], vals) && ir.Same(args[2], recvs[0].R)
@@ -151,30 +189,11 @@ func collectorRules(c *core.Ctx, s *Stage, col, w *Goroutine, vals, result *ir.T
 				okComb = false
 				c.Fail("combine-once", "fork.Fold#collector", lastPos(p), "each iteration must set acc = Combine(acc, <-partials) exactly once; found acc' = %s with %d receives", short(v), len(recvs))
 			}
+			if p.To != h {
+				exitRule(p, v, nil)
+			}
 		} else if p.Exit == ir.ExitReturn {
-			sends := allSends(p)
-			n := 0
-			sendIdx, closeIdx := -1, -1
-			for i := range p.Steps {
-				st := &p.Steps[i]
-				if st.Kind == ir.KSend && ir.Same(st.A[0], result) {
-					n++
-					sendIdx = i
-					if !ir.Same(st.A[1], sym) {
-						okProv = false
-						c.Fail("single-result", "fork.Fold", st.Pos(), "the value sent on the result channel is %s, expected the collector's accumulator", short(st.A[1]))
-					}
-				}
-				if st.Kind == ir.KClose && ir.Same(st.A[0], result) {
-					closeIdx = i
-				}
-			}
-			capOK := false
-			if k, isK := chanCap(result).IntConst(); isK && k >= 1 {
-				capOK = true
-			}
-			c.Check(n == 1 && len(sends) == 1 && closeIdx > sendIdx && capOK, "single-result", "fork.Fold", lastPos(p), "one send(result, acc), then close; cap >= 1",
-				"the collector sends %d values on the result channel (want exactly 1, before its close, capacity >= 1; found capacity %s)", n, short(chanCap(result)))
+			exitRule(p, sym, nil)
 		}
 	}
 	if okProv {
